@@ -406,6 +406,8 @@ pub fn run_sub<S: Sub>(s: &S, opts: &Opts, total_cases: u32, report: &mut Report
                 let rng = proptest::test_runner::TestRng::from_seed(RngAlgorithm::ChaCha, &seed_bytes);
                 let mut runner = TestRunner::new_with_rng(config, rng);
                 let ctx = RefCell::new(Ctx::new());
+                // diagnostics only: VERIF_SLOW=<seconds> prints cases whose check took longer (stderr)
+                let slow_limit: Option<f64> = std::env::var("VERIF_SLOW").ok().and_then(|v| v.parse().ok());
                 let strategy = s.strategy(opts.tier);
                 let res = runner.run(&strategy, |case| {
                     if stop.load(Ordering::Relaxed) && !ctx.borrow().frozen {
@@ -413,7 +415,16 @@ pub fn run_sub<S: Sub>(s: &S, opts: &Opts, total_cases: u32, report: &mut Report
                         return Ok(());
                     }
                     let mut c = ctx.borrow_mut();
-                    match checked(s, &case, &mut c) {
+                    let t_case = std::time::Instant::now();
+                    let r_case = checked(s, &case, &mut c);
+                    if let Some(limit) = slow_limit {
+                        let el = t_case.elapsed().as_secs_f64();
+                        if el > limit {
+                            let dbg = format!("{case:?}");
+                            eprintln!("SLOW sub={} {:.2}s case={}", s.name(), el, dbg.chars().take(1500).collect::<String>());
+                        }
+                    }
+                    match r_case {
                         Ok(()) => Ok(()),
                         Err(reason) => {
                             // Stop counting: shrinking re-executes the closure.
